@@ -23,6 +23,10 @@ type Config struct {
 	Thorough      bool
 	Verbose       bool
 	Known         []*KnownFinding
+	Fix           map[string]int // debugging: force named choices
+	NoGuess       bool
+	GuessTries    int
+	Seed          int
 }
 
 type KnownFinding struct {
@@ -144,6 +148,7 @@ func (r *harnessResult) merge(o *harnessResult) {
 
 type RunStats struct {
 	Queries, Sat, Unsat, Unknown, Errors int
+	GuessHits, GuessMiss, ModelHits      int
 	SolverDur, MaxQuery                  time.Duration
 	Funcs                                map[string]int
 	Notes                                map[string]bool
@@ -412,6 +417,9 @@ func collectStats(ins []*Interp) *RunStats {
 		st.Unsat += s.Unsat
 		st.Unknown += s.Unknown
 		st.Errors += s.Errors
+		st.GuessHits += in.guessHits
+		st.GuessMiss += in.guessMiss
+		st.ModelHits += in.modelHits + in.synHits
 		st.SolverDur += s.Dur
 		if s.MaxQuery > st.MaxQuery {
 			st.MaxQuery = s.MaxQuery
@@ -439,6 +447,23 @@ func explore(prog *ssa.Program, hs []*ssa.Function, cfg *Config) (map[string]*ha
 	}
 	var wg sync.WaitGroup
 	ins := make([]*Interp, cfg.Workers)
+	stopTick := make(chan struct{})
+	if cfg.Verbose {
+		go func() {
+			t0 := time.Now()
+			for {
+				select {
+				case <-stopTick:
+					return
+				case <-time.After(10 * time.Second):
+					p.mu.Lock()
+					q, a := len(p.queue), p.active
+					p.mu.Unlock()
+					fmt.Printf("  [progress %.0fs] paths=%d queued=%d active=%d\n", time.Since(t0).Seconds(), atomic.LoadInt64(&p.paths), q, a)
+				}
+			}
+		}()
+	}
 	for w := 0; w < cfg.Workers; w++ {
 		wg.Add(1)
 		go func(w int) {
@@ -466,6 +491,7 @@ func explore(prog *ssa.Program, hs []*ssa.Function, cfg *Config) (map[string]*ha
 		}(w)
 	}
 	wg.Wait()
+	close(stopTick)
 	return results, collectStats(ins)
 }
 
